@@ -468,7 +468,7 @@ pub fn supervise(a: &HashMap<String, String>) -> i32 {
         let mut case = props::gen_case(&prop, tier, seed, vl.idx, false);
         // NB: PCT calibration happens in the child (exec-case) path through `prepare` only for generated cases;
         // the replay pins the policy explicitly instead
-        let path = format!("{}/{}-{}-seed{}-run{}.json", replay_dir, prop, label, seed, vl.idx);
+        let path = format!("{}/{}-{}-seed{}-run{}-{}.json", replay_dir, prop, label, seed, vl.idx, class.replace('.', "_"));
         let rep = minimise::minimise_and_write(&bin, &mut case, &vv, &prop, label, seed, vl.idx, &path, &tmp);
         match rep {
             Ok(()) => reported.push((class, path)),
